@@ -166,10 +166,33 @@ reg("C01", ["c01_typed.c"],
     exhaustive={"quick": "all values of 16-bit registers in every configuration",
                 "thorough": "all values of 16-bit registers in every configuration"})
 
+RT_FAMILY = ("tables from the small-scope family (seeded by index): 1-3 areas with bases from {0,1,5,0x100,0x7ffe}, sizes "
+             "1-8 words, gaps {0,0,1,3}; flags RW / read-only / write-only / skip-defaults; memory- or callback-backed "
+             "(some callback areas without write callback); 16/32/64-bit unsigned, signed and float registers at every "
+             "alignment with constraint none/min/max/range/callback/always-fail and seeded bounds; both byte orders")
+
+reg("C02", ["c02_blockwrite.c"],
+    rule="units = " + RT_FAMILY + " (400 tables quick, 6000 thorough). Per table, after out-of-band loading of "
+         "constraint-satisfying content: every address from two words below the lowest base to two above the highest "
+         "end x every length 0..span+3 (lengths > 9 sub-sampled in quick) x word patterns {identity, acceptable value "
+         "per overlapped register, bound +-1 per overlapped register, refused float encodings, random, all-ones, "
+         "all-zeros}, issued in sequence so that content evolves. The caller buffer is an exact-size poisoned-arena "
+         "object, as are area storage, area[] and entry[] incl. sentinels. A signature is a table; evaluations counts "
+         "block writes judged.")
+
 SAN_NOTE = ("Trusted: gcc 12 ASan/UBSan runtime, the harness' reference model, the fork-per-unit runner. "
             "Assumes little-endian x86-64; decides only the executions listed in the evidence file.")
 
 MANIFEST_TEXT = {
+    "C02": dict(
+        technique="runtime monitoring: window x pattern enumeration over generated tables against a flat address-space model (applicable-failure set + exact post-image), touched-mark and whole-image comparison after every call, poisoned exact-size buffers under ASan/UBSan",
+        text="For every generated table every (address, length) window is written with patterns aimed at each "
+             "overlapped register's constraint boundary through exactly the words the block supplies. The model "
+             "overlays the words on its own image, decodes and evaluates every overlapped register and derives the "
+             "set of applicable (class, first address) failures; success is required iff the set is empty, and the "
+             "complete storage of all areas and all touched marks are compared after every call. Where several "
+             "classes apply any of them is accepted (the statement does not rank them).",
+        note=SAN_NOTE),
     "C01": dict(
         technique="runtime monitoring: value enumeration per type/byte order/backing/constraint against an independent codec and constraint evaluator, whole-image comparison after every call, ASan/UBSan",
         text="Each register type is exercised in every configuration with exhaustive (16-bit) or boundary+random "
